@@ -8,12 +8,31 @@ import (
 	"bytes"
 	"encoding/json"
 	"fmt"
+	"math"
 	"sort"
 	"strconv"
 	"strings"
 )
 
 type V = any
+
+// Flt is a float element / argument (ints are Go ints). It has its own JSON form so that a recorded
+// case keeps the kind: 2.0 stays a float literal on replay. Observation cannot tell 2.0 from 2
+// (json_encode prints both as 2, which is C14's business), so canon prints an integral Flt like an int.
+type Flt float64
+
+func fltText(f Flt, dot bool) string {
+	x := float64(f)
+	if x == math.Trunc(x) && math.Abs(x) < 1e15 {
+		if dot {
+			return strconv.FormatInt(int64(x), 10) + ".0"
+		}
+		return strconv.FormatInt(int64(x), 10)
+	}
+	return strconv.FormatFloat(x, 'f', -1, 64)
+}
+
+func (f Flt) MarshalJSON() ([]byte, error) { return []byte(`{"$f":"` + fltText(f, true) + `"}`), nil }
 
 // canon is the canonical JSON text of a value (what both sides are compared on).
 func canon(v V) string {
@@ -36,8 +55,10 @@ func canonTo(sb *strings.Builder, v V) {
 		sb.WriteString(strconv.Itoa(x))
 	case json.Number:
 		sb.WriteString(x.String())
+	case Flt:
+		sb.WriteString(fltText(x, false))
 	case float64:
-		sb.WriteString(strconv.FormatFloat(x, 'g', -1, 64) + "f")
+		sb.WriteString(fltText(Flt(x), false))
 	case string:
 		var b bytes.Buffer
 		e := json.NewEncoder(&b)
@@ -81,6 +102,9 @@ func norm(v any) V {
 		if n, err := strconv.Atoi(x.String()); err == nil {
 			return n
 		}
+		if f, err := strconv.ParseFloat(x.String(), 64); err == nil {
+			return Flt(f)
+		}
 		return x
 	case float64:
 		if x == float64(int(x)) {
@@ -94,6 +118,11 @@ func norm(v any) V {
 		}
 		return r
 	case map[string]any:
+		if t, ok := x["$f"].(string); ok && len(x) == 1 {
+			if f, err := strconv.ParseFloat(t, 64); err == nil {
+				return Flt(f)
+			}
+		}
 		for k, e := range x {
 			x[k] = norm(e)
 		}
@@ -127,6 +156,8 @@ func lit(v V) string {
 		return "false"
 	case int:
 		return strconv.Itoa(x)
+	case Flt:
+		return fltText(x, true)
 	case string:
 		// the alphabets contain no quote, backslash, dollar, brace or at-sign
 		return `"` + x + `"`
@@ -225,40 +256,84 @@ func jsReverse(a []any) []any {
 	return r
 }
 
-// strJS is JavaScript's ToString of an element; strEcho is the form the docs show for
-// `echo $arr` ("[1, 2, 3]"). Both are accepted where an array has to become a string.
-func strJS(v V) string {
+// String forms of an element. Where an element has to become a string (join, sort, "comparison uses
+// AsString()") the docs do not say which form a non-string takes, so every defensible one is a model:
+// null -> "" (JavaScript join, PHP) or "null" (JavaScript String(), sort); bool -> "true"/"false"
+// (JavaScript) or "1"/"" (PHP); a nested array -> "1,2" (JavaScript) or "[1, 2]" (the form the docs
+// show for `echo $arr`). Numbers have one form: 2.0 -> "2", 2.5 -> "2.5".
+type strForm struct {
+	nullWord bool // null -> "null"
+	phpBool  bool // true -> "1", false -> ""
+	echoArr  bool // [1, 2] -> "[1, 2]"
+}
+
+func (f strForm) str(v V) string {
 	switch x := v.(type) {
 	case nil:
+		if f.nullWord {
+			return "null"
+		}
 		return ""
 	case bool:
+		if f.phpBool {
+			if x {
+				return "1"
+			}
+			return ""
+		}
 		if x {
 			return "true"
 		}
 		return "false"
 	case int:
 		return strconv.Itoa(x)
+	case Flt:
+		return fltText(x, false)
 	case string:
 		return x
 	case []any:
 		p := make([]string, len(x))
 		for i, e := range x {
-			p[i] = strJS(e)
+			p[i] = f.str(e)
+		}
+		if f.echoArr {
+			return "[" + strings.Join(p, ", ") + "]"
 		}
 		return strings.Join(p, ",")
 	}
 	return "?"
 }
 
-func strEcho(v V) string {
-	if x, ok := v.([]any); ok {
-		p := make([]string, len(x))
-		for i, e := range x {
-			p[i] = strEcho(e)
+// strJS is JavaScript's ToString of an element as join uses it; strEcho differs for nested arrays only.
+func strJS(v V) string   { return strForm{}.str(v) }
+func strEcho(v V) string { return strForm{echoArr: true}.str(v) }
+
+// strForms: all forms; withNullWord=false leaves out null -> "null" (join never prints it).
+func strForms(withNullWord bool) []strForm {
+	var r []strForm
+	for _, nw := range []bool{false, true} {
+		if nw && !withNullWord {
+			continue
 		}
-		return "[" + strings.Join(p, ", ") + "]"
+		for _, pb := range []bool{false, true} {
+			for _, ea := range []bool{false, true} {
+				r = append(r, strForm{nw, pb, ea})
+			}
+		}
 	}
-	return strJS(v)
+	return r
+}
+
+func hasKind(a []any, pred func(V) bool) bool {
+	for _, e := range a {
+		if pred(e) {
+			return true
+		}
+		if sub, ok := e.([]any); ok && hasKind(sub, pred) {
+			return true
+		}
+	}
+	return false
 }
 
 func hasNested(a []any) bool {
@@ -278,7 +353,13 @@ func jsJoin(a []any, sep string, str func(V) string) string {
 	return strings.Join(p, sep)
 }
 
-// strictEq is ===; looseEq additionally equates an int with its decimal string and arrays by value.
+// Equality models for indexOf / includes ("the first element equal to ..."; note 5: "comparison uses
+// AsString()"). The docs do not pin one down, so a call conforms when it agrees with any of them:
+//
+//	strictEq  JavaScript ===: numbers by value (JavaScript has one number type, 2.0 === 2), other
+//	          scalars by kind and value, distinct array objects never identical;
+//	looseEq   PHP ==;
+//	asStrEq   equal string forms (JavaScript or PHP form of bool; arrays in the echo form).
 func strictEq(a, b V) bool {
 	if _, ok := a.([]any); ok {
 		return false // distinct array objects are never identical in JavaScript
@@ -286,22 +367,91 @@ func strictEq(a, b V) bool {
 	return canon(a) == canon(b)
 }
 
+func numOf(v V) (float64, bool) {
+	switch x := v.(type) {
+	case int:
+		return float64(x), true
+	case Flt:
+		return float64(x), true
+	}
+	return 0, false
+}
+
+func numericStr(s string) (float64, bool) {
+	if s == "" || strings.TrimSpace(s) != s {
+		return 0, false
+	}
+	for _, c := range s {
+		if !(c >= '0' && c <= '9') && c != '.' && c != '-' {
+			return 0, false // the pools contain plain decimal numerals only
+		}
+	}
+	f, err := strconv.ParseFloat(s, 64)
+	return f, err == nil
+}
+
 func looseEq(a, b V) bool {
-	if canon(a) == canon(b) {
+	if a == nil && b == nil {
 		return true
 	}
-	ai, aok := a.(int)
-	bs, bok := b.(string)
-	if aok && bok && strconv.Itoa(ai) == bs {
-		return true
+	if _, ok := b.(bool); ok {
+		a, b = b, a
 	}
-	bi, bok2 := b.(int)
-	as, aok2 := a.(string)
-	if aok2 && bok2 && strconv.Itoa(bi) == as {
+	if x, ok := a.(bool); ok {
+		return x == truthy(b)
+	}
+	if b == nil {
+		a, b = b, a
+	}
+	if a == nil {
+		if s, ok := b.(string); ok {
+			return s == ""
+		}
+		return !truthy(b)
+	}
+	an, aNum := numOf(a)
+	bn, bNum := numOf(b)
+	as, aStr := a.(string)
+	bs, bStr := b.(string)
+	switch {
+	case aNum && bNum:
+		return an == bn
+	case aNum && bStr:
+		if f, ok := numericStr(bs); ok {
+			return an == f
+		}
+		return strJS(a) == bs
+	case aStr && bNum:
+		return looseEq(b, a)
+	case aStr && bStr:
+		fa, oka := numericStr(as)
+		fb, okb := numericStr(bs)
+		if oka && okb {
+			return fa == fb
+		}
+		return as == bs
+	}
+	aa, aArr := a.([]any)
+	ba, bArr := b.([]any)
+	if aArr && bArr {
+		if len(aa) != len(ba) {
+			return false
+		}
+		for i := range aa {
+			if !looseEq(aa[i], ba[i]) {
+				return false
+			}
+		}
 		return true
 	}
 	return false
 }
+
+func asStrEq(f strForm) func(a, b V) bool {
+	return func(a, b V) bool { return f.str(a) == f.str(b) }
+}
+
+var eqModels = []func(a, b V) bool{strictEq, looseEq, asStrEq(strForm{echoArr: true}), asStrEq(strForm{echoArr: true, phpBool: true})}
 
 func jsIndexOf(a []any, search V, from *int, eq func(a, b V) bool) int {
 	n := len(a)
@@ -368,6 +518,8 @@ func truthy(v V) bool {
 	case bool:
 		return x
 	case int:
+		return x != 0
+	case Flt:
 		return x != 0
 	case string:
 		return x != "" && x != "0"
